@@ -853,7 +853,9 @@ def _execute(p, s, res):
                                                                       "waited": round(now - start, 9)})
             elif timeout is None and not sched_pending and not M.sched:
                 _violate(res, "none_from_request_without_timeout", si, {})
-            elif timeout is not None and not sched_pending and not M.sched and now < start + timeout:
+            elif timeout is not None and not sched_pending and not M.sched and now + 1e-6 < start + timeout:
+                # (a microsecond of tolerance: time-out arithmetic on clock readings of different magnitude --
+                # time.time() vs time.monotonic() -- rounds differently in the last bits)
                 _violate(res, "none_before_timeout", si, {"timeout": timeout, "returned_after": round(now - start, 9),
                                                           "spurious_wakeups": world.probes.get("stale_wakeup_spurious", 0) - spur0})
             if timeout:
